@@ -364,6 +364,14 @@ func relatedPairs(r *rand.Rand, l []sx.V) (out [][]sx.V, shapes []string) {
 			}
 		}
 	}
+	// same type, different value: change the last byte / the low bits of one item
+	for i := range l {
+		if p := perturbValue(l[i]); p != nil {
+			c := cp()
+			c[i] = *p
+			out, shapes = append(out, c), append(shapes, "perturb-value")
+		}
+	}
 	if len(l) >= 2 {
 		i := r.Intn(len(l) - 1)
 		c := cp()
@@ -373,6 +381,101 @@ func relatedPairs(r *rand.Rand, l []sx.V) (out [][]sx.V, shapes []string) {
 		out, shapes = append(out, c2[:len(c2)-1]), append(shapes, "drop-last")
 	}
 	return
+}
+
+// perturbValue returns a different value of the same kind (last byte flipped / number +-1), or nil.
+func perturbValue(v sx.V) *sx.V {
+	k := v.L[0].AsInt()
+	flipLast := func(b []byte) []byte {
+		x := append([]byte{}, b...)
+		if len(x) == 0 {
+			return []byte{1}
+		}
+		x[len(x)-1] ^= 1
+		return x
+	}
+	bump := func(z *big.Int, max *big.Int) *big.Int {
+		n := new(big.Int).Add(z, big.NewInt(1))
+		if max != nil && n.Cmp(max) >= 0 {
+			n.Sub(z, big.NewInt(1))
+		}
+		if n.Sign() < 0 {
+			return nil
+		}
+		return n
+	}
+	var out sx.V
+	switch k {
+	case 0, 9, 10, 11, 14:
+		if len(v.L[1].L) != 1 {
+			return nil
+		}
+		out = sx.List(v.L[0], sx.List(sx.Bytes(flipLast(v.L[1].L[0].B))))
+	case 7:
+		out = sx.List(v.L[0], sx.Bytes(flipLast(v.L[1].B)))
+	case 8:
+		if len(v.L[1].L) != 1 || len(v.L[1].L[0].L) == 0 {
+			return nil
+		}
+		ids := append([]sx.V{}, v.L[1].L[0].L...)
+		ids[len(ids)-1] = sx.Bytes(flipLast(ids[len(ids)-1].B))
+		out = sx.List(v.L[0], sx.List(sx.List(ids...)))
+	case 15:
+		if len(v.L[2].L) != 1 {
+			return nil
+		}
+		out = sx.List(v.L[0], v.L[1], sx.List(sx.Bytes(flipLast(v.L[2].L[0].B))))
+	case 1:
+		out = sx.List(v.L[0], sx.Big(new(big.Int).Add(v.L[1].Z, big.NewInt(1))))
+	case 12:
+		n := bump(v.L[1].Z, new(big.Int).Lsh(big.NewInt(1), 32))
+		if n == nil {
+			return nil
+		}
+		out = sx.List(v.L[0], sx.Big(n))
+	case 13:
+		n := bump(v.L[1].Z, big.NewInt(65536))
+		if n == nil {
+			return nil
+		}
+		out = sx.List(v.L[0], sx.Big(n))
+	case 5:
+		n := bump(v.L[1].Z, secpQ)
+		if n == nil {
+			return nil
+		}
+		out = sx.List(v.L[0], sx.Big(n))
+	case 16:
+		n := bump(v.L[1].Z, new(big.Int).Lsh(big.NewInt(1), 4096))
+		if n == nil {
+			return nil
+		}
+		out = sx.List(v.L[0], sx.Big(n))
+	case 4, 17:
+		out = sx.List(v.L[0], sx.Big(new(big.Int).Add(v.L[1].Z, big.NewInt(1))))
+	case 18:
+		n := bump(v.L[3].Z, new(big.Int).Lsh(big.NewInt(1), 2048))
+		if n == nil {
+			return nil
+		}
+		out = sx.List(v.L[0], v.L[1], v.L[2], sx.Big(n))
+	case 2, 3:
+		bl := v.L[1].AsInt()
+		if bl == 0 {
+			return nil
+		}
+		z := new(big.Int).Xor(v.L[2].Z, big.NewInt(1))
+		if v.L[2].Z.Sign() < 0 {
+			z = new(big.Int).Sub(v.L[2].Z, big.NewInt(1))
+			if z.BitLen() > bl*8 {
+				z = new(big.Int).Add(v.L[2].Z, big.NewInt(1))
+			}
+		}
+		out = sx.List(v.L[0], v.L[1], sx.Big(z))
+	default:
+		return nil
+	}
+	return &out
 }
 
 type c19Replay struct {
